@@ -437,6 +437,32 @@ def gen_arrays(rng, tier, codecs=None):
                         ops.append(f"pfor.rt {arr_spec(rng, n)} t={hx(t)}")
                 else:
                     ops.append(f"{c}.rt {arr_spec(rng, n, maxbits=maxbits)}")
+    # sorted data with ONE descent: at the very end (a counter that restarted), at the very start, in the middle;
+    # even and odd lengths around unroll factors / block sizes (a presorted fast path that misses a pair)
+    for c in codecs:
+        maxbits = 32 if c in ("bp32", "bpd32") else 64
+        rl = [2, 3, 8, 31, 32, 33, 34, 63, 64, 65, 127, 128, 129, 130, 1000, 1001]
+        if c == "group":
+            rl = [2, 3, 8, 31, 32, 33, 63, 64]
+        if tier != "quick":
+            rl = rl + [255, 256, 257, 4096, 4097]
+        for n in rl:
+            base = rng.choice([5000, 1 << 16, (1 << 24) + 5]) if maxbits == 64 else rng.choice([5000, 1 << 16])
+            step = rng.choice([1, 1, 3, 100])
+            asc = [base + step * i for i in range(n)]
+            variants = [asc[:-1] + [rng.choice([0, 7, base - 1])],          # last below first
+                        asc[:-1] + [asc[-2] - 1 if n > 1 else asc[0]],       # last below its predecessor only
+                        [asc[-1] + 9] + asc[1:],                             # first above everything
+                        asc[:n // 2] + [rng.choice([0, base - 1])] + asc[n // 2 + 1:]]   # one dip in the middle
+            if c in ("bpd32", "bpd64"):
+                variants = variants[:1] if False else [asc]                  # delta BP128 is specified for non-decreasing input
+            for v in variants:
+                v = [x & ((1 << maxbits) - 1) for x in v][:n]
+                if c == "pfor":
+                    for t in (0x5a, 0x5f, 0x63):
+                        ops.append(f"pfor.rt {explicit(v)} t={hx(t)}")
+                else:
+                    ops.append(f"{c}.rt {explicit(v)}")
     # run lengths straddling the tagged-length boundaries, as first, interior and last run
     for c in ("rle", "rleh"):
         if c in codecs:
@@ -448,13 +474,14 @@ def gen_arrays(rng, tier, codecs=None):
                 ops.append(f"{c}.rt {explicit([4] + [v] * L + [9] * 3)}")
     # dictionary cardinalities straddling the index-width boundaries (exactly k distinct values)
     if "dict" in codecs:
-        ks = [1, 2, 255, 256, 257] + ([65535, 65536, 65537] if tier != "quick" else [])
+        ks = [1, 2, 255, 256, 257, 65535, 65536, 65537]
         for k in ks:
             base = rng.choice([0, 1, 1 << 20, 1 << 40])
             stride = rng.choice([1, 3, 257])
             vals = [base + stride * i for i in range(k)]
             rng.shuffle(vals)
-            ops.append(f"dict.rt {explicit(vals)}")
+            if k < 1000 or tier != "quick":
+                ops.append(f"dict.rt {explicit(vals)}")
             extra = vals + [rng.choice(vals) for _ in range(rng.randint(1, 300))]
             rng.shuffle(extra)
             ops.append(f"dict.rt {explicit(extra)}")
@@ -824,6 +851,13 @@ def gen_adaptive(rng, tier, slice_only=False):
             ops.append(f"adaptive.rt @r:{hx(rng.getrandbits(60))}:{hx(n)}:0:{hx(rng.choice([M64, 1 << 60, 1 << 33]))}")
             # periodic data that misleads the sampler above 10000 elements
             ops.append(f"adaptive.rt @p:{hx(rng.getrandbits(60))}:{hx(n)}:{hx(rng.choice([0, 1 << 56]))}:{hx(rng.choice([1 << 62, 1 << 40, 1600]))}")
+    # the bitmap universe is 0..65535: dense strictly ascending arrays whose maximum is 65534 / 65535 / 65536 / 65537
+    for mx in (65534, 65535, 65536, 65537, 65540):
+        for n in (2, 3, 100, 1000, 4097, 9999):
+            stepk = rng.choice([1, 2, 7, 13]) if n * 13 < 60000 else 1
+            vals = [mx - stepk * (n - 1 - i) for i in range(n)]
+            if vals[0] >= 0:
+                ops.append(f"adaptive.rt {explicit(vals)}")
     # above 10000 elements uniqueness is estimated from a sample: few-distinct arrays on both sides of the 15 % dictionary
     # threshold, lengths that are and are not multiples of the sampling stride
     for n in (10001, 10007, 10010) + ((12345, 20011) if big else ()):
